@@ -90,6 +90,11 @@ class Target:
         return False
 
     float_sensitive = False
+    abstracted = False       # True: some externs are uninterpreted functions (counter-models may be spurious)
+
+    def native_label(self, label):
+        """clause label under which a symbolic obligation is evaluated in native replays"""
+        return label
 
     def witness_constraints(self, ctx, st):
         """extra constraints for witnesses / counter-models that are run natively.  For targets that
@@ -174,6 +179,8 @@ class Target:
         mod, globs = self.module()
         with contextlib.ExitStack() as es:
             for dotted_name, ext in externs.items():
+                if getattr(ext, 'native_passthrough', False) or type(ext).__name__ == 'Uninterp':
+                    continue
                 parts = dotted_name.split('.')
                 if parts[0] not in globs:
                     raise EngineError("extern %s: root %s is not a global of %s" % (dotted_name, parts[0], mod.__name__))
